@@ -165,7 +165,19 @@ type Result struct {
 
 // RunScenario executes a scenario against the real library.
 func RunScenario(sc *Scenario, opt Options) (res *Result) {
-	w := &World{sc: sc, opt: opt, stats: NewStats()}
+	res, _ = runWorld(sc, opt)
+	return res
+}
+
+// BuildWorld runs a scenario and hands back the world (used by engines that
+// need the real library objects in a reached state).
+func BuildWorld(sc *Scenario, opt Options) *World {
+	_, w := runWorld(sc, opt)
+	return w
+}
+
+func runWorld(sc *Scenario, opt Options) (res *Result, w *World) {
+	w = &World{sc: sc, opt: opt, stats: NewStats()}
 	if w.opt.MaxEvents == 0 {
 		w.opt.MaxEvents = 4000
 	}
@@ -200,7 +212,7 @@ func RunScenario(sc *Scenario, opt Options) (res *Result) {
 		w.step = len(sc.Steps)
 		w.finish()
 	}
-	return res
+	return res, w
 }
 
 func (w *World) live(id int) *State { return w.blocks[id].Post }
